@@ -248,7 +248,7 @@ RETRY:
 		res.Output = truncate(definite.out, 4000)
 		return res
 	}
-	if !quickOnly && attempt == 0 {
+	if !quickOnly && attempt == 0 && os.Getenv("VC_NORETRY") == "" {
 		// no solver decided it: one more round with another random seed and twice the budget before
 		// calling it undecided (solver luck must not turn a proved obligation into an undecided one)
 		attempt++
